@@ -163,6 +163,31 @@ fn count_drop(tag: u8) {
     }
 }
 
+/// droppable zero-sized type (a permit / token): every construction must be matched by exactly one drop
+pub static mut ZD_MADE: u8 = 0;
+pub struct ZD;
+impl Drop for ZD {
+    fn drop(&mut self) {
+        count_drop(0)
+    }
+}
+impl Payload for ZD {
+    const DROPPY: bool = true;
+    const TAGGED: bool = false;
+    fn make(_t: u8) -> Self {
+        unsafe {
+            ZD_MADE += 1;
+        }
+        ZD
+    }
+    fn tag(&self) -> u8 {
+        0
+    }
+    fn bits(&self) -> [u64; 3] {
+        [0; 3]
+    }
+}
+
 /// droppable, smaller than a pointer
 pub struct TagS(pub u8);
 impl Drop for TagS {
